@@ -10,8 +10,8 @@ spec/Discovery.tla.  Binding (real frappy.protocol.discovery.UDPListener on a Fa
                  answers; replayed through run() with scripted recvfrom, compared after every datagram, a
                  final discover request proves the loop is still alive.
   server wiring: spec/DiscoveryServer.tla (which ports are open, which identity is current, restart, shutdown);
-                 Gen_DiscoveryServer enumerates every interface list (tcp/ws x comes up/fails) x boot, restart*,
-                 shutdown; harness/discworld.py runs the real frappy.server.Server (config file, run(), restart(),
+                 Gen_DiscoveryServer enumerates every interface list (tcp/ws) x boot, restart*, shutdown with a
+                 fresh choice at every (re)start of which interfaces come up; harness/discworld.py runs the real frappy.server.Server (config file, run(), restart(),
                  shutdown(), real TCPServer/WSServer constructors) on a fake bind layer with the real UDPListener
                  thread on a threaded fake socket; a broadcast request after every operation shows who answers.
   code -> spec : seeded random descriptions (mixed scripts, escapes, lengths around the limit, real 508) and
@@ -590,7 +590,7 @@ SRV_DESCR = ['node', 'd\u00e9sc "q"\n\U0001f604', '', 'x' * 600]
 
 
 def execute_server(case):
-    """case: ifaces [kind...], ops [restart|shutdown...], eq, descr, bare_main, salt
+    """case: schemes [tcp|ws...], ups [[indices up] per (re)start], ops [restart|shutdown...], eq, descr, ...
     -> trace in the vocabulary of Trace_DiscoveryServer (one event per operation, each followed by a probe)"""
     import re
     from ..discworld import World
@@ -624,24 +624,27 @@ def execute_server(case):
             ev = {'ev': op, 'listening': sorted(idx(p) for p in w.listening), 'announce': announce,
                   'answers': answers, 'ok': ok1 and ok2, 'error': w.error, 'responders': w.running_responders()}
             if op == 'boot':
-                ev['cfg'] = list(case['ifaces'])
+                ev['cfg'] = list(case['schemes'])
+            if op != 'shutdown':
+                ev['up'] = sorted(case['ups'][w.starts - 1])
             trace.append(ev)
-            if w.error:
+            if w.error or not w.thread.is_alive():
                 break
     finally:
         w.close()
     return trace
 
 
-def server_case(kinds, ops, salt):
-    return {'ifaces': list(kinds), 'ops': list(ops), 'eq': EQ_IDS[salt % len(EQ_IDS)] or 'n',
+def server_case(schemes, ups, ops, salt):
+    return {'schemes': list(schemes), 'ups': [sorted(u) for u in ups], 'ops': list(ops), 'eq': EQ_IDS[salt % len(EQ_IDS)] or 'n',
             'descr': SRV_DESCR[salt % len(SRV_DESCR)], 'bare_main': bool(salt % 3 == 0), 'arg_main': bool(salt % 4 == 1),
             'salt': salt}
 
 
 def _replay_server(item):
     idx, beh, seed = item
-    case = server_case(beh[0]['cfg'], [s['act'] for s in beh[1:]], seed + idx)
+    case = server_case(beh[0]['cfg'], [s['up'] for s in beh if s['act'] != 'shutdown'], [s['act'] for s in beh[1:]],
+                       seed + idx)
     tr = execute_server(case)
     diff = None
     for i, st in enumerate(beh):
@@ -657,29 +660,21 @@ def _replay_server(item):
 
 def _random_server(seed):
     rnd = random.Random(seed)
-    kinds = [rnd.choice(['tcp_up', 'tcp_up', 'tcp_fail', 'ws_up', 'ws_fail']) for _ in range(rnd.randint(1, 5))]
-    ops = ['restart'] * rnd.choice([0, 0, 1, 1, 2, 4]) + (['shutdown'] if rnd.random() < 0.8 else [])
-    if not any(k.endswith('up') for k in kinds):
-        ops = []
-    case = server_case(kinds, ops, rnd.randrange(1000))
+    schemes = [rnd.choice(['tcp', 'tcp', 'ws']) for _ in range(rnd.randint(1, 5))]
+    ops = ['restart'] * rnd.choice([0, 1, 1, 2, 2, 4]) + (['shutdown'] if rnd.random() < 0.8 else [])
+    ups = [[i + 1 for i in range(len(schemes)) if rnd.random() < 0.7] for _ in range(1 + ops.count('restart'))]
+    case = server_case(schemes, ups, ops, rnd.randrange(1000))
     case['eq'] = rnd.choice(EQ_IDS[:3] + ['node.' + rand_text(rnd, rnd.randint(1, 20), False)]) or 'n'
     return case, execute_server(case), None
 
 
 def server_signature(clause, trace, l):
-    """clause named by TLC + who answered the probe after the failing operation"""
+    """clause named by TLC + whether the set of open interfaces changed at the failing (re)start"""
     sig = {'module': 'DiscoveryServer', 'clause': clause}
-    if 0 < l <= len(trace) and trace[l - 1]['ev'] != 'boot':
-        ev = trace[l - 1]
-        gen = 1 + sum(1 for e in trace[:l] if e['ev'] == 'restart')
-        ports = sorted(trace[0]['listening'])
-        by_gen = {}
-        for g, i in ev['answers']:
-            by_gen.setdefault(g, []).append(i)
-        if ev['ev'] == 'restart':
-            sig['current_answers'] = sorted(by_gen.get(gen, [])) == ports
-        sig['all_previous_answer'] = all(sorted(by_gen.get(g, [])) == ports for g in range(1, gen))
-        sig['other_answers'] = any(g not in range(1, gen + 1) for g in by_gen)
+    ups = [e['up'] for e in trace[:l] if 'up' in e]
+    if 0 < l <= len(trace) and trace[l - 1]['ev'] == 'restart' and len(ups) > 1:
+        sig['came_up'] = 'same' if ups[-1] == ups[-2] else 'fewer' if set(ups[-1]) < set(ups[-2]) else \
+            'more' if set(ups[-1]) > set(ups[-2]) else 'other'
     return sig
 
 
@@ -917,7 +912,7 @@ def run(chk):
             for dev, inv in (('disable', 'BuildSound'), ('announce', 'AnnounceBounded'), ('loop', 'Alive'))]
     devs += [(dev, inv, ex.submit(run_tlc, 'DiscoveryServer', 'MC_DiscoveryServer_asimpl_%s.cfg' % dev, timeout=300,
                                   workers=1))
-             for dev, inv in (('restart', 'OneResponder'), ('ports', 'AnswersTrue'))]
+             for dev, inv in (('restart', 'OneResponder'), ('ports', 'AnswersTrue'), ('sticky', 'AnswersTrue'))]
     gen_srv = ex.submit(emit_behaviours, 'Gen_DiscoveryServer', 'Gen_DiscoveryServer_quick.cfg' if quick else
                         'Gen_DiscoveryServer_thorough.cfg', maximal_only=False, timeout=300)
     cfg = 'Gen_Discovery_build_quick.cfg' if quick else 'Gen_Discovery_build_thorough.cfg'
